@@ -79,6 +79,17 @@ CLAIMED = {
                 "page directories (not counted).",
         "note": "Partial: the merge expression is recognised structurally; copying and links are bounded only.",
     },
+    "C18": {
+        "engines": ["A", "S", "Bd"],
+        "technique": "contract-based deductive verification: VCs from the AST of FortranVariable.full_type and full_declaration (string theory, fold specification of the "
+                     "attribute list, z3 / cvc5); escape-filter obligations over the jinja2 AST of every template expression that prints an initial value or bind name; "
+                     "bounded differential rendering (placeholders vs HTML-significant contents)",
+        "text": "Narrow claim. Proved for every variable: the display strings are assembled exactly from type, kind, len, prototype, attributes, dimension and parameter; "
+                "every template site that prints an initial value or bind name escapes it. That the parsed fields hold the source text, literal re-insertion and all other "
+                "template sites are covered by a bounded differential run of the real FORD (not counted). One known finding (relational operators in kind/len/dimension "
+                "expressions are printed raw).",
+        "note": "Partial: parser side and most template sites are bounded only.",
+    },
     "C14": {
         "engines": ["A", "Bd"],
         "technique": "contract-based deductive verification: VCs from the AST of FortranLine.__analyse (array-encoded line, bounded column windows) against "
@@ -199,4 +210,4 @@ CLAIMED = {
     },
 }
 _NB = "no obligations built yet for this property in the current commit (planned in DESIGN.md section 6; technique not switched)"
-NOT_APPLICABLE = {p: _NB for p in ["C18"]}
+NOT_APPLICABLE = {}
